@@ -43,7 +43,7 @@ func main() {
 	out := flag.String("out", "", "result JSON path")
 	dump := flag.String("dump", "", "keep SMT files in this directory")
 	timeout := flag.Int("timeout", 0, "per-query timeout in seconds (default 10 quick / 60 thorough)")
-	par := flag.Int("par", 5, "obligations solved in parallel")
+	par := flag.Int("par", 8, "obligations solved in parallel")
 	verbose := flag.Bool("v", false, "print every obligation")
 	flag.Parse()
 	start := time.Now()
